@@ -42,6 +42,7 @@ def run_case(case):
     try:
         projgen.write_project(root, case)
         rows0 = graph.seed_case(root, case)
+        graph.plant_conflicts(root, case)
         out = []
         labels = graph.shape_labels(case)
         cached = {int(i) for i in case.get("seeded", {})}
@@ -55,7 +56,8 @@ def run_case(case):
             cached2 = {ids.index(r[0]) for r in rows1 if r[0] in ids}
             c2 = dict(case)
             c2["flags"] = ["again"] if case["second"] == "again" else []
-            c2["outcomes"] = {}
+            # a planted conflict file is still there in the second invocation
+            c2["outcomes"] = {k: o for k, o in case.get("outcomes", {}).items() if "conflict" in o}
             res2 = graph.run_cond(root, graph.argv_for(c2), kspec=graph.kernel_spec(c2, 2000.0))
             rows2 = projgen.read_rows(root)
             v2, lb2, nt2, brief2 = judge(c2, res2, cached2, case["second"] == "again", set(rows1), rows2)
